@@ -14,7 +14,7 @@ CRATE = dict(
             # the conversion itself is std's; its documented panic condition becomes an assertion on the argument
             ("sub", "R14-conv", r"Duration::from_secs_f64\(", "vx_from_secs_f64(", 1),
             # as_secs_f64 is std's: its result is a finite f64 in [0, 2^64) and the same for the same duration (assumed)
-            ("sub", "R14-conv", r"duration\.as_secs_f64\(\)", "vx_as_secs_f64(duration)", 3),
+            ("sub", "R14-conv", r"duration\.as_secs_f64\(\)", "vx_as_secs_f64(duration)", -1),
         ]),
     },
 )
